@@ -385,7 +385,14 @@ type ReregCase struct {
 	Runners int     `json:"runners"`
 	Rounds  int     `json:"rounds"`
 	NewArgs int     `json:"new_args"` // argument count of the second implementation (1 or 2)
+	// the signature probe: argument type of the first and of the second registration (0 literal, 1 number, 2 boolean)
+	// and the argument written in the call
+	OldType  int `json:"old_type,omitempty"`
+	NewType  int `json:"new_type,omitempty"`
+	ProbeArg int `json:"probe_arg,omitempty"`
 }
+
+var probeSeq int
 
 func swapV1(args []xpath.Datum) xpath.Datum {
 	return xpath.NewLiteralDatum("v1:" + args[0].Literal("verif-swap"))
@@ -405,7 +412,8 @@ func registerSwap(fn xpath.CustomFn, nargs int) {
 func genRereg(t *rapid.T) ReregCase {
 	srcs := []string{"verif-swap(a)", "concat(verif-swap(a), verif-swap(../b))", "string-length(verif-swap(current()/a)) > 3", "verif-swap(concat(a, 'x'))"}
 	return ReregCase{Src: srcs[rapid.IntRange(0, len(srcs)-1).Draw(t, "reregsrc")], Ctx: tree.ID{{Name: []string{"ctx", "x", "top"}[rapid.IntRange(0, 2).Draw(t, "reregctx")]}},
-		Runners: rapid.IntRange(1, 6).Draw(t, "runners"), Rounds: rapid.IntRange(1, 4).Draw(t, "rounds"), NewArgs: rapid.IntRange(1, 2).Draw(t, "newargs")}
+		Runners: rapid.IntRange(1, 6).Draw(t, "runners"), Rounds: rapid.IntRange(1, 4).Draw(t, "rounds"), NewArgs: rapid.IntRange(1, 2).Draw(t, "newargs"),
+		OldType: rapid.IntRange(0, 2).Draw(t, "oldtype"), NewType: rapid.IntRange(0, 2).Draw(t, "newtype"), ProbeArg: rapid.IntRange(0, 4).Draw(t, "probearg")}
 }
 
 func checkRereg(c ReregCase) fw.Outcome {
@@ -483,6 +491,33 @@ func checkRereg(c ReregCase) fw.Outcome {
 	}
 	close(stop)
 	wg.Wait()
+	// A machine compiled after a re-registration follows the signature registered then, whatever machines compiled
+	// against the earlier signature did before: the same steps under a name with no history give the same result.
+	sigProbe := func(name string, withHistory bool) string {
+		reg := func(t xpath.DatumTypeChecker) {
+			xpath.RegisterCustomFunctions([]xpath.CustomFunctionInfo{{Name: name, FnPtr: func(args []xpath.Datum) xpath.Datum {
+				return xpath.NewLiteralDatum(fmt.Sprintf("%T:%s", args[0], args[0].Literal(name)))
+			}, Args: []xpath.DatumTypeChecker{t}, RetType: xpath.TypeIsLiteral, DefaultRetVal: xpath.NewLiteralDatum("probe-default")}})
+		}
+		types := []xpath.DatumTypeChecker{xpath.TypeIsLiteral, xpath.TypeIsNumber, xpath.TypeIsBool}
+		arg := []string{"12", "'x'", "1 div 4", "a", "true()"}[c.ProbeArg%5]
+		if withHistory {
+			reg(types[c.OldType%3])
+			if old, err := expr.NewExprMachineWithCustomFunctions(name+"("+arg+")", nil); err == nil {
+				runMachine(old, it)
+			}
+		}
+		reg(types[c.NewType%3])
+		m2, err := expr.NewExprMachineWithCustomFunctions(name+"("+arg+")", nil)
+		if err != nil {
+			return "compile error: " + strings.ReplaceAll(err.Error(), name, "F")
+		}
+		return strings.ReplaceAll(runMachine(m2, it), name, "F")
+	}
+	probeSeq++
+	if a, b := sigProbe(fmt.Sprintf("verif-probe-h%d", probeSeq), true), sigProbe(fmt.Sprintf("verif-probe-c%d", probeSeq), false); a != b {
+		problems = append(problems, fmt.Sprintf("a machine compiled after the function was registered again (argument type %d after %d, argument %d) returns %q; under a name without history the same machine returns %q", c.NewType%3, c.OldType%3, c.ProbeArg%5, a, b))
+	}
 	if m.PrintMachine() != listing {
 		problems = append(problems, "the listing of the machine changed")
 	}
@@ -495,7 +530,8 @@ func checkRereg(c ReregCase) fw.Outcome {
 var rereg = fw.Register(&fw.Prop[ReregCase]{
 	ID: "C06", Name: "reregister",
 	Rule: "a machine that calls a custom function is compiled, then 1-6 goroutines run it in a loop while the same function name is registered 1-4 times with another implementation (with the same or another " +
-		"number of arguments) and back; oracle: every run of the machine returns what it returned before the first re-registration, its listing is unchanged, the binary is built with -race; " +
+		"number of arguments) and back; then a second function is registered with one argument type, a machine calling it is run, it is registered again with another argument type and a new machine compiled; " +
+		"oracle: every run of the first machine returns what it returned before the first re-registration, its listing is unchanged, the new machine returns what the same machine returns under a function name without history, the binary is built with -race; " +
 		"non-trivial = at least two runners",
 	Gen: genRereg, Check: checkRereg, Weight: 0.3,
 })
